@@ -995,11 +995,23 @@ func vsUnaryCase(fields map[string]string) string {
 		// innermost binding first in the model: wrap from the last to the first
 		for i := len(bs) - 1; i >= 0; i-- {
 			kvp := strings.Split(bs[i], ":")
+			if kvp[0] == "G" {
+				// the caller's context already carries a gcpContext (another call's: a context derived
+				// from a stream's Context(), a doubly installed interceptor): G:g<req>_<reply>
+				ab := strings.Split(kvp[1][1:], "_")
+				a, _ := strconv.Atoi(ab[0])
+				b, _ := strconv.Atoi(ab[1])
+				ctx = context.WithValue(ctx, gcpKey, &gcpContext{reqMsg: &vsObjs[a], replyMsg: &vsObjs[b]})
+				continue
+			}
 			k, _ := strconv.Atoi(kvp[0])
 			v, _ := strconv.Atoi(kvp[1][1:])
 			ctx = context.WithValue(ctx, vsUserKey(k), &vsObjs[v])
 		}
 		for _, b := range bs {
+			if strings.HasPrefix(b, "G:") {
+				continue
+			}
 			k, _ := strconv.Atoi(strings.Split(b, ":")[0])
 			keys = append(keys, k)
 		}
@@ -1091,6 +1103,11 @@ func vsRandomUnary(rng *vsRng) string {
 	nb := rng.intn(5)
 	for i := 0; i < nb; i++ {
 		bs = append(bs, fmt.Sprintf("%d:v%d", rng.intn(12), rng.intn(60)))
+	}
+	if rng.intn(3) == 0 {
+		at := rng.intn(len(bs) + 1)
+		g := fmt.Sprintf("G:g%d_%d", rng.intn(60), rng.intn(60))
+		bs = append(bs[:at], append([]string{g}, bs[at:]...)...)
 	}
 	x := "-"
 	if len(bs) > 0 {
